@@ -67,7 +67,8 @@ struct Tracked {
   size_t size;
 };
 static bool g_hook = false;                        // inside a run
-static thread_local bool t_in_emplace = false;     // inside Set::emplace of this thread
+static thread_local bool t_in_emplace = false;
+static thread_local int t_last_node = -1;          // id of the node this thread allocated last     // inside Set::emplace of this thread
 static std::vector<Tracked>* g_tracked = nullptr;  // blocks whose release is deferred to the end of the run
 static std::vector<Node*>* g_nodes = nullptr;      // node id -> address (id 0 = &set._head)
 static std::map<size_t, size_t>* g_bufsize = nullptr;   // allocate_size -> bucket count
@@ -94,11 +95,13 @@ static void* hooked_alloc(size_t n, size_t al) {
         g_tracked->push_back({p, n});
         g_nodes->push_back((Node*)p);
         int id = (int)g_nodes->size() - 1;
+        t_last_node = id;
         vrt_namef((char*)p + offsetof(Node, next), sizeof(void*), "next%d", id);
-      } else if (g_bufsize->count(n) && !g_nodes->empty()) {
+      } else if (g_bufsize->count(n) && t_last_node > 0) {
         g_tracked->push_back({p, n});
         size_t nb = (*g_bufsize)[n];
-        int id = (int)g_nodes->size() - 1;
+        int id = t_last_node;
+        t_last_node = -1;
         size_t voff = Fixed::calculate_values_offset(nb);
         vrt_namef(p, nb + 16, "ctl%d", id);
         vrt_namef((char*)p + voff, n - voff, "val%d", id);
@@ -277,27 +280,32 @@ static void run(uint64_t seed, bool is_set) {
   }
   auto mk_key = [&](uint64_t uniq) { return (uniq << 16) | hashes[uniq % hashes.size()]; };
   // how many distinct keys: around the capacity (fixed) / enough to grow 1-3 tables (set)
-  size_t target;
+  size_t target, cap;
   if (is_set) {
-    int grow = 1 + (int)rng.below(3);
-    size_t cap = n0, nxt = cap0 * 2;   // placeholder: capacity 0, first chained table 32
+    int grow = (int[]) {1, 1, 1, 2, 2, 3}[rng.below(6)];
+    size_t nxt = cap0 * 2;   // placeholder: capacity 0, first chained table 32
+    cap = n0;
     for (int g = 1; g < grow; ++g) { cap += nxt; nxt *= 2; }
     target = cap + 1 + rng.below(6);
   } else {
+    cap = n0;
     target = cap0 - 3 + rng.below(7);  // a few below .. a few above the capacity
     if (n0 == 0) target = 2 + rng.below(4);
   }
-  size_t nprefix = target > 6 ? target - 2 - rng.below(5) : rng.below(target + 1);
-  if (rng.below(6) == 0) nprefix = rng.below(4);       // sometimes (nearly) everything is concurrent
-  if (!is_set && n0 == 64 && nprefix < 40) nprefix = 40;
+  // the sequential prefix stops a few keys short of the capacity, so that the threads race for the
+  // last free buckets / for the growth step; sometimes (nearly) everything is concurrent
+  size_t nprefix = cap > 5 ? cap - 1 - rng.below(5) : 0;
+  if (rng.below(5) == 0) nprefix = cap > 5 ? rng.below(cap) : 0;
+  if (!is_set && n0 == 64 && nprefix < 40) nprefix = 40 + rng.below(20);
+  // key pool of the threads: few keys (so that several threads insert the same key at the same time),
+  // mostly new ones, enough of them to go beyond the capacity
   std::vector<uint64_t> pool;
-  size_t npool = 2 + rng.below(9);
-  for (size_t i = 0; i < npool; ++i) {
-    // mostly new keys (beyond the prefix), some already inserted ones
-    uint64_t u = rng.below(4) == 0 && nprefix ? rng.below(nprefix) : nprefix + rng.below(target - nprefix + 3);
-    pool.push_back(mk_key(u));
-  }
-  int nops = 2 + (int)rng.below(6);
+  size_t room = cap > nprefix ? cap - nprefix : 0;
+  size_t nnew = 1 + rng.below(4) + (rng.below(3) ? room : 0);
+  for (size_t i = 0; i < nnew; ++i) pool.push_back(mk_key(nprefix + i));
+  if (nprefix && rng.below(2)) pool.push_back(mk_key(rng.below(nprefix)));
+  int nops = 3 + (int)rng.below(10);
+  (void)target;
 
   // ---- container
   g_tracked = new std::vector<Tracked>();
@@ -332,7 +340,7 @@ static void run(uint64_t seed, bool is_set) {
     ts.emplace_back([&, tseed] {
       Rng r(tseed);
       for (int i = 0; i < nops; ++i) {
-        uint64_t k = pool[r.below(pool.size())];
+        uint64_t k = pool[r.below(3) ? r.below(pool.size()) : r.below(1 + pool.size() / 3)];
         unsigned what = (unsigned)r.below(100);
         if (what < 65) R.do_emplace(k, r.below(1000), what < 15);
         else R.do_find(k);
@@ -340,7 +348,13 @@ static void run(uint64_t seed, bool is_set) {
     });
   }
   for (auto& t : ts) t.join();
-  // ---- quiescent census (growth never drops or duplicates a key; chain shape; size)
+  // a lookup at quiescence finds every inserted key, at the same address
+  for (auto& kv : o.stored) R.do_find(kv.first);
+  uint64_t steps = vrt_steps(), switches = vrt_switches();
+  vrt_end();
+  g_hook = false;
+  // ---- quiescent census, outside the controlled section (growth never drops or duplicates a key;
+  // chain shape; size)
   std::vector<const Fixed*> tables;
   tables.push_back(head);
   if constexpr (std::is_same<C, Set>::value) {
@@ -367,13 +381,10 @@ static void run(uint64_t seed, bool is_set) {
     if (cnt > 1) vrt_event("ORACLE duplicated key %lu stored %zu times", (unsigned long)kv.first, cnt);
     if (o.winners[kv.first] != 1) vrt_event("ORACLE winners key %lu has %d successful insertions", (unsigned long)kv.first, o.winners[kv.first]);
     ++distinct;
-    // a lookup at quiescence finds it, at the same address
-    R.do_find(kv.first);
   }
   if (c.size() != distinct) vrt_event("ORACLE size reports %zu, %zu distinct keys were inserted", c.size(), distinct);
-  vrt_event("stats steps %lu switches %lu tables %zu keys %zu", vrt_steps(), vrt_switches(), tables.size(), distinct);
-  vrt_end();
-  g_hook = false;
+  vrt_event("stats steps %lu switches %lu tables %zu keys %zu", (unsigned long)steps, (unsigned long)switches, tables.size(), distinct);
+
   // ---- canonicalise node addresses in `next<k>` lines, then print
   std::string tr = vrt_trace(), out;
   size_t pos = 0;
